@@ -237,6 +237,13 @@ func (g *gen) wellFormed(size int) *sfeed {
 	for i := 0; i < nTrips; i++ {
 		n := g.r.Intn(2 + size/2)
 		seqs := g.r.Perm(n*2 + 3)[:n]
+		if g.coin(0.15) { // stop_sequence is an unbounded non-negative integer: values around and beyond the int32 limit
+			for k := range seqs {
+				if g.coin(0.5) {
+					seqs[k] += []int{2147483640, 4294967290, 2147483648, 1 << 40}[g.r.Intn(4)]
+				}
+			}
+		}
 		sort.Ints(seqs)
 		for _, q := range seqs {
 			stt.rows = append(stt.rows, srow{"trip_id": tripIDs[i], "arrival_time": g.gtfsTime(), "departure_time": g.gtfsTime(), "stop_id": stopIDs[g.r.Intn(nStops)], "stop_sequence": fmt.Sprint(q),
